@@ -109,7 +109,31 @@ def detect(args):
     return 0
 
 
+def table(args):
+    rows = ["| seeded change | property | what it needs to manifest | demonstration re-confirmed | property's check | failed checks reported |", "|---|---|---|---|---|---|"]
+    for mid in ids(args):
+        d = os.path.join(SEEDED, mid)
+        meta = json.load(open(os.path.join(d, "meta.json")))
+        det = json.load(open(os.path.join(d, "detect.json"))) if os.path.exists(os.path.join(d, "detect.json")) else {}
+        con = json.load(open(os.path.join(d, "confirm.json"))) if os.path.exists(os.path.join(d, "confirm.json")) else {}
+        lines = []
+        for p, c in det.get("checks", {}).items():
+            for l in c.get("lines", []):
+                m = re.search(r"failed check in (\S+): (.*) at ", l)
+                if m:
+                    lines.append("`%s`: %s" % (m.group(1), m.group(2)[:90]))
+        verdict = "**detected** (exit 1, replayed natively)" if det.get("detected") else ("not detected" if det else "not run")
+        if det.get("error"):
+            verdict = "patch no longer applies"
+        needs = (meta.get("needs") or "").replace("\n", " ").replace("|", "/")[:260]
+        rows.append("| %s | %s | %s | %s | %s | %s |" % (mid, meta.get("property"), needs, "yes" if con.get("confirmed") else ("no: " + str(con.get("error", "see confirm.json"))[:60] if con else "not run"), verdict, "<br>".join(lines[:3])))
+    print("\n".join(rows))
+    return 0
+
+
 if __name__ == "__main__":
+    if len(sys.argv) >= 2 and sys.argv[1] == "table":
+        sys.exit(table(sys.argv[2:]))
     if len(sys.argv) < 2 or sys.argv[1] not in ("confirm", "detect"):
         print(__doc__)
         sys.exit(2)
